@@ -589,6 +589,34 @@ func (r *Runner) step(st Obj) error {
 		}
 		r.hookMu.Unlock()
 		return nil
+	case "reconfig":
+		// the controller object was edited: the hosted controller is stopped and a new one
+		// with the new configuration is started (same process, same caches)
+		if as == nil {
+			return fmt.Errorf("unknown actor %q", a)
+		}
+		if err := r.finish(as); err != nil {
+			return err
+		}
+		nc := Obj{}
+		for k, v := range r.sc.Cfg {
+			nc[k] = v
+		}
+		for k, v := range AsMap(st["cfg"]) {
+			nc[k] = v
+		}
+		cp := *r.sc
+		cp.Cfg = nc
+		r.sc = &cp
+		as.ctl.Stop()
+		ctl, err := r.Factory(as.world, r.sc, as.name)
+		if err != nil {
+			return fmt.Errorf("controller construction: %w", err)
+		}
+		ctl.Start()
+		as.ctl = ctl
+		r.Trace.Emit(Obj{"ev": "Reconfig", "a": as.name, "cfg": nc})
+		return as.world.WaitCaches(ctl.Stores(), r.timeout())
 	case "crash":
 		if as == nil {
 			return fmt.Errorf("unknown actor %q", a)
